@@ -77,7 +77,7 @@ impl Run {
             for (_, v) in items {
                 out.push(v);
             }
-            if out.len() > 10_000 {
+            if out.len() > 300 {
                 break;
             }
         }
@@ -244,7 +244,8 @@ impl Run {
                     run.w.app.wasm_sudo(t.clone(), &RawOp::RawRemove { key: Binary::from(k) }).unwrap();
                 }
             }
-            let ver = json!({"contract":"crates.io:cw20-base","version":"0.13.4"});
+            let lv = cfg.get("legacyVersion").and_then(|x| x.as_str()).unwrap_or("0.13.4");
+            let ver = json!({"contract":"crates.io:cw20-base","version":lv});
             run.w
                 .app
                 .wasm_sudo(t.clone(), &RawOp::RawSet { key: Binary::from(b"contract_info".to_vec()), value: Binary::from(serde_json::to_vec(&ver).unwrap()) })
@@ -436,6 +437,7 @@ fn rand_cfg(rng: &mut Rng) -> Value {
         }
     };
     let legacy = rng.chance(1, 6);
+    let legacy_version = *rng.pick(&["0.13.4", "0.13.0", "0.10.0", "0.9.1", "0.2.0", "0.8.0-rc1"]);
     let mut grants = vec![];
     if legacy {
         for _ in 0..rng.range(0, 5) {
@@ -445,7 +447,7 @@ fn rand_cfg(rng: &mut Rng) -> Value {
         }
     }
     let marketing = if rng.chance(1, 2) { json!({"addr": rng.pick(&["a1", "a2", "none"]), "logo": rng.pick(&["none", "url", "png", "svg"])}) } else { Value::Null };
-    json!({"scale":scale,"init":init,"minter":minter,"cap":cap,"legacy":legacy,"legacyGrants":grants,"marketing":marketing})
+    json!({"scale":scale,"init":init,"minter":minter,"cap":cap,"legacy":legacy,"legacyVersion":legacy_version,"legacyGrants":grants,"marketing":marketing})
 }
 
 fn rand_exp(rng: &mut Rng, h: u64, t: u64, concrete: bool) -> Value {
